@@ -18,7 +18,7 @@ import z3
 from . import inject
 from .array import SymArray
 from .engine import Engine, PathBudgetExceeded, prove
-from .scalar import Q, SymBool, Unsupported, bz, eqv, eqv_strong, isb
+from .scalar import Q, SymBool, Unsupported, bz, eqv, eqv_strong, isb, perturbed
 
 VERIF = os.path.dirname(os.path.dirname(os.path.abspath(__file__)))
 REPLAYS = os.path.join(VERIF, "replays")
@@ -305,7 +305,7 @@ def _run_scenario(spec, res):
                         and not isinstance(dict(_cells(o.oracle))[idx], (SymBool, bool, np.bool_)):
                     a = dict(_cells(o.impl))[idx]
                     b = dict(_cells(o.oracle))[idx]
-                    wrong = Q.lift(b) + 1
+                    wrong = perturbed(b)
                     # refutation is searched at the path witness (pinned inputs): cheap, and still exercises
                     # the whole VC pipeline (encoding of the negated goal, model extraction)
                     try:
@@ -559,6 +559,8 @@ def run_check(prop, specs, tier, seed, level="model_checking", jobs=None, bounds
     json.dump(ev, open(os.path.join(VERIF, "evidence", "%s.json" % prop), "w"), indent=1)
     for ln in lines:
         print(ln)
+    slow = sorted(results, key=lambda r: -r.wall)[:3]
+    print("slowest scenarios: " + "; ".join("%s %.0fs (%d paths, %d vcs)" % (r.name, r.wall, r.paths, r.vcs) for r in slow))
     print("%s %s tier=%s scenarios=%d paths=%d vcs=%d discharged=%s witnesses=%d canaries=%d violations=%d known=%d wall=%.1fs -> exit %d"
           % (prop, title, tier, len(results), paths, vcs, dict(disc), ev["coverage"]["traces_validated_against_impl"],
              ev["coverage"]["canaries_refuted"], n_viol, len(known_hit), time.time() - t0, exit_code))
